@@ -81,7 +81,12 @@ def api_cases(rng, tier):
     cases = []
     n = 0
     ops = C09.OPS + ["SC 0 %s %s" % (hx("i"), hx("ann")), "SM 0 %s %s %s" % (hx("sl"), hx("a"), hx("b")),
-                     "RN 0 %s 0" % hx("n"), "RT 0 %s %s" % (hx("u"), hx("a"))]
+                     "RN 0 %s 0" % hx("n"), "RT 0 %s %s" % (hx("u"), hx("a")),
+                     # lookups that are refused half-way through a path (existing section, then something malformed):
+                     # what the resolver allocated for the step must be released on that exit, too
+                     "SI 0 %s 0 1" % hx("m='a'b|x"), "SS 0 %s 0 %s" % (hx("m='a'x|x"), hx("v")), "RS 0 %s" % hx("m='b'x"),
+                     "GS 0 %s" % hx("m='a'="), "SI 0 %s 0 1" % hx("n=0x|z"), "RS 0 %s" % hx("n=0|"), "SI 0 %s 0 1" % hx("m=a|nosuch|x"),
+                     "PB 0 " + hx(b'"m=\'a\'b|x" = 1\n'), "PB 0 " + hx(b'"m=\'a\'|x" = 1\n')]
     import itertools
     depth = 2 if tier == "quick" else 3
     seqs = []
